@@ -72,12 +72,57 @@ def pat(n, salt):
 
 def plan_streams(plan):
     """what a helper child given this write plan writes to (stdout, stderr)"""
-    tot = {"o": 0, "e": 0}
-    for step in plan.split(";"):
-        f = step.split(",")
-        if len(f) == 3:
+    steps = [st.split(",") for st in plan.split(";")]
+    steps = [f for f in steps if len(f) == 3]
+    if all(f[0] in ("o", "e") for f in steps):
+        tot = {"o": 0, "e": 0}
+        for f in steps:
             tot[f[0]] += int(f[1])
-    return pat(tot["o"], 0), pat(tot["e"], 5)
+        return pat(tot["o"], 0), pat(tot["e"], 5)
+    # o / e the pattern with newlines; O / E the pattern WITHOUT newlines (one long line); on / en newlines;
+    # or / er "\r" progress output; oz / ez NUL bytes; offsets run per stream
+    buf, salt = {"o": [], "e": []}, {"o": 0, "e": 5}
+    off = {"o": 0, "e": 0}
+    prog = "progress 12%\r"
+    for f in steps:
+        st, n = f[0][0].lower(), int(f[1])
+        i0 = off[st]
+        if f[0] in ("o", "e"):
+            buf[st].append("".join("\n" if i % 1000 == 999 else chr(33 + (i * 131 + (i >> 8) * 17 + salt[st]) % 94) for i in range(i0, i0 + n)))
+        elif f[0] in ("O", "E"):
+            buf[st].append("".join(chr(33 + (i * 131 + (i >> 8) * 17 + salt[st]) % 94) for i in range(i0, i0 + n)))
+        elif f[0] in ("on", "en"):
+            buf[st].append("\n" * n)
+        elif f[0] in ("or", "er"):
+            buf[st].append("".join(prog[i % len(prog)] for i in range(i0, i0 + n)))
+        elif f[0] in ("oz", "ez"):
+            buf[st].append("\x00" * n)
+        else:
+            buf[st].append("?" * n)
+        off[st] += n
+    return "".join(buf["o"]), "".join(buf["e"])
+
+
+_PS = {}
+_plan_streams_raw = plan_streams
+
+
+def plan_streams(plan):
+    if plan not in _PS:
+        _PS[plan] = _plan_streams_raw(plan)
+    return _PS[plan]
+
+
+def shape_plans():
+    """payload SHAPES: single lines of 65535 .. 1 MiB bytes (with and without the trailing newline, followed by further
+    writes), only "\\r" progress output, NUL bytes"""
+    P = []
+    for n in (65535, 65536, 65537, 200000, 1048576):
+        P.append("E,%d,%d;en,1,1;e,20,20;o,5,5" % (n, n))          # ONE stderr line of n bytes, then more on both streams
+        P.append("O,%d,%d;on,1,1;o,7,7" % (n, n))                  # the same on stdout
+    P += ["E,65537,65537", "O,200000,200000", "E,70000,4096;en,1,1;E,70000,70000"]      # no trailing newline; a line arriving in chunks
+    P += ["er,5000,13;or,3000,13", "or,65,13;on,1,1", "oz,4096,4096;ez,100,100;o,10,10", "ez,70000,70000;en,1,1;e,3,3"]
+    return P
 
 
 def volume_plans():
@@ -232,6 +277,49 @@ def group_member(c, i, dump, hold):
             "inherit": c["inherit"], "member_of_group": i}
 
 
+def gen_seq(rng, kind=None, n=None):
+    """k commands one after the other in one process, ONE stdin for all of them: each reads exactly its portion"""
+    kind = kind or rng.choice(["file", "pipe", "pty"])
+    n = n or rng.choice([2, 2, 3, 4])
+    lines = ["line %d for command %d\n" % (i, i) if i % 2 else "l%d\n" % i for i in range(n)] + ["left for the caller\n", "and more\n"]
+    calls = []
+    for i in range(n):
+        fn, so, se = rng.choice(GROUP_FNS)
+        r = rng.random()
+        m = None if r < 0.3 else [[k, "%s %d" % (rng.choice(MAPVALS), i)] for k in ("C15_A", "C15_B") if rng.random() < 0.5]
+        how = "line" if (kind == "pty" or rng.random() < 0.7) else str(rng.choice([1, 3, len(lines[i])]))
+        calls.append({"fn": fn, "so": so, "se": se, "env": m, "cmd": "@BIN@" if rng.random() < 0.9 else "/nonexistent/c15-helper",
+                      "args": ["cmd%d" % i, rng.choice(["$C15_A", "${C15_B}", "lit"])], "exit": rng.choice([0, 0, 0, 3, 255]),
+                      "out": "out %d\n" % i, "read": how})
+    return {"seq": True, "stdin_kind": kind, "stdin": "".join(lines), "calls": calls,
+            "inherit": [[k, rng.choice(VALS[:8])] for k in ("C15_A", "C15_B") if rng.random() < 0.6]}
+
+
+def seq_portions(c, started):
+    """the portion of the caller's stdin each command of a sequence reads (None for one that was not started), and the rest"""
+    data, pos, out = c["stdin"], 0, []
+    for m, st in zip(c["calls"], started):
+        if not st:
+            out.append(None)
+            continue
+        if m["read"] == "line":
+            j = data.find("\n", pos)
+            end = len(data) if j < 0 else j + 1
+        else:
+            end = min(len(data), pos + int(m["read"]))
+        out.append(data[pos:end])
+        pos = end
+    return out, data[pos:]
+
+
+def seq_member(c, i, dump):
+    m = c["calls"][i]
+    return {"fn": m["fn"], "so": m["so"], "se": m["se"], "env": m["env"], "cmd": m["cmd"],
+            "args": m["args"] + ["--c15-exit=%d" % m["exit"], "--c15-out=" + HX(m["out"]), "--c15-dump=" + dump, "--c15-read=" + m["read"]],
+            "exit": m["exit"], "sig": 0, "out": m["out"], "err": "", "stdin": "", "via_map": False, "verbose": None,
+            "inherit": c["inherit"], "member_of_group": i}
+
+
 def gen_raw(rng, quick, signals=(9,)):
     out = []
     for k in range(256):
@@ -306,7 +394,7 @@ class World:
         self.base_env = {"PATH": "/usr/bin:/bin:" + os.path.join(self.odd, "pb"), "C15_FDGUARD": ctx.tmp}
 
     def subst(self, s):
-        return s.replace("@BINDIR@", self.bindir).replace("@BIN@", self.bin).replace("@NOEXEC@", self.noexec).replace("@BADFMT@", self.badfmt).replace("@BADINTERP@", self.badinterp).replace("@TXTBSY@", self.txtbsy).replace("@ODD@", self.odd)
+        return s.replace("@BINDIR@", self.bindir).replace("@BIN@", self.bin).replace("@NOEXEC@", self.noexec).replace("@BADFMT@", self.badfmt).replace("@BADINTERP@", self.badinterp).replace("@TXTBSY@", self.txtbsy).replace("@ODD@", self.odd).replace("@KNOBFILE@", os.path.join(self.ctx.tmp, "knob", "knob.out"))
 
 
 def make_request(w, c, workdir, idx):
@@ -326,6 +414,20 @@ def make_request(w, c, workdir, idx):
             members.append((mc, [list(kv) for kv in mc["env"]] if (uses and mc["env"] is not None) else None))
         return {"op": "sh", "raw": {"fn": "group", "calls": calls, "plan": c["order"], "setenv": {HX(k): HX(v) for k, v in setenv.items()},
                                     "tmp": workdir}}, setenv, members
+    if c.get("seq"):
+        setenv = {k: w.subst(v) for k, v in c["inherit"]}
+        calls, members = [], []
+        for i in range(len(c["calls"])):
+            di = "%s.%d" % (dump, i)
+            mc = seq_member(c, i, di)
+            uses = mc["fn"] in WITH_ENV
+            sub = {"fn": mc["fn"], "cmd": HX(w.subst(mc["cmd"])), "args": [HX(x) for x in mc["args"]], "so": mc["so"], "se": mc["se"], "dump": di}
+            if uses and mc["env"] is not None:
+                sub["env"] = {HX(k): HX(v) for k, v in mc["env"]}
+            calls.append(sub)
+            members.append((mc, [list(kv) for kv in mc["env"]] if (uses and mc["env"] is not None) else None))
+        return {"op": "sh", "raw": {"fn": "seq", "calls": calls, "stdin": HX(c["stdin"]), "stdin_kind": c["stdin_kind"],
+                                    "setenv": {HX(k): HX(v) for k, v in setenv.items()}, "tmp": workdir}}, setenv, members
     if c.get("raw"):
         se = {}
         if c["kind"] == "child":
@@ -463,6 +565,12 @@ def intended(c):
 def oracle(w, c, a, setenv, envm):
     """returns a list of violated clauses"""
     bad = []
+    if a.get("hung"):
+        # package sh must not wait for more of the caller's stdin than the command reads
+        return ["the call did not return %s (os.Stdin is a %s; the command had %s)" % (
+                "within 40 s" if a["hung"] == 2 else "until, after 20 s, the far side of the caller's stdin was closed",
+                "pipe" if c.get("streams") == "pipe" else (a.get("stdin_kind") or "file"),
+                "finished" if a.get("dump") else "not reported")]
     d = a["dump"]
     fn = c["fn"]
     parent = dict(w.base_env)
@@ -635,6 +743,8 @@ def case_term(w, c, a, envm):
         child = child_term(d["exit"], d["sig"], *wrote(d))
         started = "(Some (%s, %s))" % (coq_list([cs(unhex(x)) for x in d["argv"]]), coq_list([cs(unhex(x)) for x in d["env"] if not unhex(x).startswith(LONG_DIRECTIVES)]))
         stdin_ok = d["stdin_sha"] == hashlib.sha256(B(stdin_expected(c, a))).hexdigest() or "member_of_group" in c
+        if "stdin_ok_override" in c:
+            stdin_ok = c["stdin_ok_override"]
     else:
         child = child_term(c["exit"], c["sig"], *intended(c))      # what it would have done
         started = "None"
@@ -806,9 +916,47 @@ def run(ctx):
         cases.append(gen_group(rng, fx))
     for _ in range(16 if ctx.quick else 400):
         cases.append(gen_group(rng))
+    # payload SHAPES: very long single lines, "\r"-only output, NUL bytes
+    shape_cases = []
+    for pi, plan in enumerate(shape_plans()):
+        for fi in (range(7) if not ctx.quick else ((pi % 7), (pi + 4) % 7)):
+            c = gen_case(rng, exit_code=[0, 3, 0, 255, 1][(pi + fi) % 5], fn=FNS[fi], good_cmd=True)
+            c["sig"], c["plan"], c["args"] = 0, plan, c["args"][:1]
+            if c["fn"] == "Exec":
+                c["so"], c["se"] = [("buf", "buf"), ("os", "os"), ("nil", "buf")][pi % 3]
+            c["streams"] = "file" if pi % 2 else "pipe"
+            c.pop("stdin_kind", None)
+            shape_cases.append(c)
+    cases += shape_cases
+    # stdin SHARING: k commands in sequence, one stdin (file / pipe with everything written up front / pty typed ahead)
+    seq_cases = [gen_seq(rng, kind, n) for kind in ("file", "pipe", "pty") for n in (2, 3)] + [gen_seq(rng) for _ in range(6 if ctx.quick else 200)]
+    cases += seq_cases
     nrand = 150 if ctx.quick else 9000
     for _ in range(nrand):
         cases.append(gen_case(rng, signals=signals))
+    # KNOB DISCOVERY: every environment variable the tree under test reads that no model knows (none on the unchanged tree):
+    # a representative slice of all call families again with the knob set - names carry no meaning, nothing may change
+    import depslib
+    knobs = depslib.discover_knobs()[:8]
+    n_knob_cases = 0
+    if knobs:
+        os.makedirs(os.path.join(ctx.tmp, "knob"), exist_ok=True)
+        ordinary = [c for c in cases if not (c.get("group") or c.get("seq") or c.get("plan") or c.get("bg"))]
+        slice_ = ordinary[::max(1, len(ordinary) // 40)][:40]
+        slice_ += [c for c in cases if c.get("shape")][::8][:12]
+        small = lambda c: len(plan_streams(c["plan"])[0]) + len(plan_streams(c["plan"])[1]) <= 300000
+        slice_ += [c for c in shape_cases if small(c)]                                     # every payload shape
+        slice_ += [c for c in cases if c.get("plan") and c not in shape_cases and small(c)][::5][:10]
+        slice_ += [c for c in cases if c.get("group")][:5] + seq_cases[:8]
+        slice_ += [c for c in cases if c.get("stdin_kind") in ("socket", "pty", "devnull")][:6]
+        for kb in knobs:
+            for val in ("1", "true", "@KNOBFILE@", "1s"):
+                for c in slice_:
+                    c2 = json.loads(json.dumps(c))
+                    c2["inherit"] = [kv for kv in c2["inherit"] if kv[0] != kb] + [[kb, val]]
+                    c2["knob"] = [kb, val]
+                    cases.append(c2)
+                    n_knob_cases += 1
     ncall = len(cases)
     cases += gen_raw(rng, ctx.quick, signals)
     ctx.log("built; %d cases" % len(cases))
@@ -822,7 +970,7 @@ def run(ctx):
     codes_seen = set()
     shapes = {}
     cov_bg = [0]
-    n_args = n_args_decided = n_bad = n_oracle_only = n_groups = n_group_calls = 0
+    n_args = n_args_decided = n_bad = n_oracle_only = n_groups = n_group_calls = n_seqs = n_seq_calls = 0
     reported = {}
 
     def report(cl):
@@ -839,6 +987,45 @@ def run(ctx):
                     ctx.violation({"kind": "oracle", "clause": cl}, case=c)
             raw_items.append(raw_term(c, a))
             idx_raw.append(i)
+            continue
+        if c.get("seq"):
+            # consecutive commands sharing the caller's stdin: each gets its own portion, the rest stays
+            n_seqs += 1
+            started = [ma["dump"] is not None for ma in a["group"]]
+            want, rest = seq_portions(c, started)
+            label = "%d commands in sequence, os.Stdin is a %s holding %r" % (len(c["calls"]), a.get("stdin_kind") or c["stdin_kind"], c["stdin"][:60])
+            bads = []
+            if a.get("hung"):
+                n_bad += 1
+                cl = "%s: a call did not return by itself (the far side of the caller's stdin had to be closed after 20 s)" % label
+                if report(cl):
+                    ctx.violation({"kind": "oracle", "clause": cl}, case=c)
+                continue
+            for mi, (ma, wp) in enumerate(zip(a["group"], want)):
+                if ma.get("error"):
+                    raise BuildError("unitrun op sh (seq): " + ma["error"])
+                got = unhex(ma["dump"].get("stdin_hex") or "") if ma["dump"] is not None else None
+                if got != wp:
+                    bads.append("%s: command %d (%s, reads %s) read %r from stdin, its portion is %r" % (label, mi, c["calls"][mi]["fn"], c["calls"][mi]["read"], got, wp))
+            if not bads and unhex(a.get("stdin_rest") or "") != rest:
+                bads.append("%s: after the commands the caller's stdin still holds %r, expected %r" % (label, unhex(a.get("stdin_rest") or "")[:80], rest[:80]))
+            if sorted(unhex(x) for x in a["environ"]) != sorted(unhex(x) for x in a.get("environ_after") or []):
+                bads.append("%s: the process environment changed" % label)
+            for cl in bads[:1]:
+                n_bad += 1
+                if report(cl):
+                    ctx.violation({"kind": "oracle", "clause": cl}, case=c)
+            for mi, ((mc, menvm), ma) in enumerate(zip(envm, a["group"])):
+                ma = dict(ma, environ=a["environ"], os_stdout=a["os_stdout"], os_stderr=a["os_stderr"])
+                for cl in oracle(w, mc, ma, setenv, menvm)[:1]:
+                    n_bad += 1
+                    cl = "%s: command %d (%s): %s" % (label, mi, mc["fn"], cl)
+                    if report(cl):
+                        ctx.violation({"kind": "oracle", "clause": cl}, case=c)
+                mc = dict(mc, stdin_ok_override=(not bads))
+                items.append(case_term(w, mc, ma, menvm))
+                idx_call.append(i)
+                n_seq_calls += 1
             continue
         if c.get("group"):
             # overlapping calls: every member is judged exactly like that call alone, against the process environment
@@ -940,17 +1127,21 @@ def run(ctx):
     cov["calls_with_streams_reassigned_to_pipes"] = sum(1 for c in cases if c.get("streams") == "pipe")
     kinds = {}
     for c, r in zip(cases, results):
-        if not c.get("raw") and not c.get("group"):
+        if not c.get("raw") and not c.get("group") and not c.get("seq") and not c.get("seq"):
             kk = "pipe" if c.get("streams") == "pipe" else (r[0].get("stdin_kind") or "file")
             kinds[kk] = kinds.get(kk, 0) + 1
     cov["stdin_kinds"] = kinds
-    cov["calls_with_credential_like_names"] = sum(1 for c in cases if not c.get("raw") and not c.get("group") and
+    cov["calls_with_credential_like_names"] = sum(1 for c in cases if not c.get("raw") and not c.get("group") and not c.get("seq") and
                                                   any(kv[0] in CRED_NAMES for kv in (c["inherit"] + (c["env"] or []))))
     cov["calls_with_odd_startable_command_words"] = sum(1 for c, r in zip(cases, results) if c.get("odd") and r[0]["dump"] is not None)
+    cov["knobs_discovered"] = knobs
+    cov["calls_repeated_under_knobs"] = n_knob_cases
+    cov["sequences_sharing_stdin"] = n_seqs
+    cov["calls_in_sequences"] = n_seq_calls
     cov["groups_of_overlapping_calls"] = n_groups
     cov["calls_in_groups"] = n_group_calls
     cov["signals_usable_here"] = signals
-    cov["calls_exec_with_failing_writer"] = sum(1 for c in cases if not c.get("raw") and not c.get("group") and c["fn"] == "Exec" and (wfail_n(c["so"]) is not None or wfail_n(c["se"]) is not None))
+    cov["calls_exec_with_failing_writer"] = sum(1 for c in cases if not c.get("raw") and not c.get("group") and not c.get("seq") and c["fn"] == "Exec" and (wfail_n(c["so"]) is not None or wfail_n(c["se"]) is not None))
     cov["not_startable_shapes_observed_not_started"] = shapes
     cov["text_file_busy_effective_here"] = w.txtbsy_effective
     cov["verbose"] = verb
@@ -960,6 +1151,6 @@ def run(ctx):
     cov["oracle_failures"] = n_bad
     cov["model_mismatches"] = len(mism) + len(mism_raw)
     cov["traces_validated_against_impl"] = len(cases) - len(mism) - len(mism_raw)
-    for c, (a, _, _) in list(zip(cases, results))[:3]:
+    for c, (a, _, _) in [x for x in zip(cases, results) if not (x[0].get("group") or x[0].get("seq") or x[0].get("raw"))][:3]:
         ctx.sample({"fn": c["fn"], "cmd": c["cmd"], "args": c["args"], "env": c["env"], "inherit": c["inherit"], "exit": c["exit"],
                     "answer": {k: a[k] for k in ("ran", "err_nil", "mg_status", "sh_status", "err_text")}})
